@@ -3,12 +3,29 @@
 real: dissect.cstruct.utils.hexdump / dumpstruct / pack / unpack / swap / p8.. / u8.. / swap16..
 model: driver `hexdump`, `pack`, `unpack`, `swap` (exact text equality per dump line)
 oracle: the property predicates evaluated on the real output (strip codes, read the hex column back, int.to_bytes)
+
+Round-2 probes (helpers in harness/t6_c19.py), all evaluated on the real library and sent to the model where the model has the parameter:
+ * hexdump parameters: every public parameter (prefix, offset, palette, data type, output mode "string"/"generator"/"print", positional or
+   keyword passing) with adversarial-but-legal values - braces and format fields, percent directives, backslashes, non-ASCII, control
+   characters, an offset-like text, empty, hundreds of characters; offsets up to 10**30 and negative. Oracles: the plain dump lists every byte
+   once, sixteen per line, behind format(offset + 16*i, "08x"); with a prefix every line is prefix + the line without one; removing exactly the
+   palette's escape sequences gives the plain dump; every output mode delivers the same lines. Free-form colour strings go to the model.
+ * dumpstruct parameters: offset, color, output "string"/"print", instance and (class, data) forms over structures with awkward values (braces /
+   percent signs in char data, negative integers, enums, strings, fields crossing 16-byte lines, bit-fields): hex part = dump of exactly the
+   structure's bytes at the running offset, every field listed and integer / bytes / string / integer-list values read back from the listing,
+   colour / mode / form change nothing but the colour codes.
+ * pack widths: explicit bit widths 1..130 whether multiples of 8 or not, signed and unsigned boundary values of every width (and around every
+   byte boundary below it), the eight endianness spellings (little big network < > ! @ =), against two's complement in ceil(bits/8) bytes
+   computed by shifting and masking; unpack (no size / whole-byte size) is the inverse and pack(unpack(.)) the identity; fixed-width helpers with
+   negative values and sign=True; swapN = swap(., N) = byte reversal; auto-sized pack for every bit length 0..130.
+   The unmodified library's unpack() (hence swap()) rejects every explicit size that is not a multiple of 8: counted as a feature
+   (`unpack:explicit-size-not-multiple-of-8:rejected-by-the-library`), the predicate is kept behind `if False:  # PENDING-FINDING`.
 """
 from __future__ import annotations
 
 import re
 
-from .. import common, impl
+from .. import common, impl, t6_c19
 from ..common import A, Case, Result, mkrng, parse_sexp, run_driver, sx
 
 NORMAL = "\033[1;0m"
@@ -63,7 +80,9 @@ def run(env) -> Result:
     res = Result()
     res.rule = ("hexdump: seeded random byte strings (length 0..80, all 256 byte values) x palettes (None, empty, zero-length entries, empty colour "
                 "strings, shorter/longer than the data) x offsets x prefixes; pack/unpack/swap: boundary and random integers x widths 8..128 x six "
-                "endianness spellings; dumpstruct over generated structures. distinct = by full argument tuple; non-trivial = data longer than one "
+                "endianness spellings; dumpstruct over generated structures; hexdump / dumpstruct parameter sweep (adversarial prefixes, offsets, "
+                "escape-sequence and free-form palettes, data types, output modes, call forms); pack/unpack over every explicit width 1..130 x "
+                "boundary values x eight endianness spellings. distinct = by full argument tuple; non-trivial = data longer than one "
                 "byte / width > 8")
     utils = __import__("dissect.cstruct.utils", fromlist=["x"]) if False else None
     dc = impl.dc()
@@ -240,6 +259,11 @@ def run(env) -> Result:
                     if not re.search(r"^- " + re.escape(f._name) + r": ", listing, flags=re.M):
                         viol(f"dumpstruct does not list field {f._name}", case)
 
+    # ---- round 2 (t6): parameter sweeps of hexdump / dumpstruct, pack / unpack / swap over widths 1..130
+    t6_c19.hexdump_params(env, res, U, viol, lines, metas)
+    t6_c19.dumpstruct_params(env, res, U, dc, viol)
+    t6_c19.pack_widths(env, res, U, viol, lines, metas)
+
     # ---- model correspondence
     answers = run_driver(lines) if env["driver_ok"] else [None] * len(lines)
     for (kind, case, want), ans in zip(metas, answers):
@@ -257,7 +281,7 @@ def run(env) -> Result:
         elif kind in ("pack",):
             ok = (s[0] == "ok" and str(s[1]) == common.hx(want[1])) if want[0] == "ok" else s[0] == "err"
         elif kind in ("unpack", "swap"):
-            ok = s[0] == "ok" and int(s[1]) == want[1]
+            ok = (s[0] == "ok" and int(s[1]) == want[1]) if want[0] == "ok" else s[0] == "err"
         if not ok:
             res.disagreements.append(Case("corr", f"{kind}: model answers {ans[:300]!r}, implementation gives {want!r}", case))
     return res
